@@ -140,6 +140,9 @@ class SyncCrazyflie:
         """ This callback is called form the Crazyflie API when a Crazyflie
         has been connected and the TOCs have been downloaded."""
         logger.debug('Connected to %s' % link_uri)
+        if self._connected not in self.cf.connected.callbacks:
+            # Another connected callback has closed the link again, _disconnected has already run
+            return
         self._is_link_open = True
         if self._connect_event:
             self._connect_event.set()
